@@ -50,6 +50,7 @@ def run(ctx, col, tier):
                         "assigned only in the advance primitive)"]
 
     repo = ctx.repo
+    col.guard(anchored, ctx, col)
     lex = lexer_table(ctx, col)
     col.guard(balance, ctx, col, lex)
     for q in (f"{CONV}.from_stream", f"{CONV}.convert"):
@@ -408,7 +409,7 @@ def walk(ctx, col):
         col.judge(recognised, lifo and rev, RO, q, conv.loc(pop), "points are numbered in document order",
                   f"`{norm_src(pop.value)}` + children pushed `{norm_src(it) if it is not None else ''}`",
                   f"`{norm_src(pop.value)}` with children pushed as `{norm_src(it) if it is not None else ''}` does not visit "
-                  f"the points in document order (depth first, first alternative first)", stmt="order")
+                  f"the points in document order (depth first, first alternative first)", stmt="order", definite=True)
         col.check(norm_src(elt.elts[0]) == gen.generators[0].target.id, RO, q, conv.loc(push), "each child gets its own frame", "",
                   "child frame does not carry the child", stmt="childframe")
     else:
@@ -525,3 +526,65 @@ def errors(ctx, col):
             col.unresolved(R, q, d.loc(), "no suppressor on the conversion path", str(sup), stmt="suppress")
         else:
             col.check(not definite, R, q, d.loc(), "no suppressor on the conversion path", "", f"errors can be swallowed: {definite}", stmt="suppress")
+
+
+def anchored(ctx, col):
+    """Statements that carry the clauses, matched three-way under one renaming per function."""
+    repo = ctx.repo
+    conv = repo.get_def(f"{CONV}.from_ast")
+    col.text_group("R-COUNTER", conv.qualname, conv, [
+        ("frames are (syntax node, parent id, type); the walk starts at the document with no parent", ["stack = [(ast, -1, types.undefined)]",
+                                                                                                 "stack: list[tuple[ASTNode, int, int]] = [(ast, -1, types.undefined)]"], "init"),
+        ("frames are taken LIFO", ["root, pid, typee = stack.pop()"], "pop"),
+        ("the point's id is the counter's value ...", ["idx = next_id"], "read"),
+        ("... which then grows by one", ["next_id += 1", "next_id = next_id + 1"], "inc"),
+        ("the id column receives the fresh id", ["ndata[names.id].append(idx)"], "idcol"),
+        ("a point is typed by the enclosing tree's label", ["ndata[names.type].append(typee)"], "typecol"),
+        ("the recorded parent is the id handed down in the frame", ["ndata[names.pid].append(pid)"], "pidcol"),
+        ("children of a point receive that point's id as parent", ["pid = idx"], "childpid"),
+        ("axon label -> axon type", ["typee = types.axon"], "axon"),
+        ("dendrite label -> a dendrite type", ["typee = types.basal_dendrite", "typee = types.apical_dendrite"], "dendrite"),
+        ("the tree is built from the collected columns with one node per id", ["tree = Tree(next_id, source=ast.source, names=names, **ndata)",
+                                                                          "return Tree(next_id, source=ast.source, names=names, **ndata)"], "tree"),
+    ], fixed=("ast", "names", "types", "Tree"))
+    col.text_group("R-ORDER", conv.qualname, conv, [
+        ("children are pushed in reverse so that the first child is popped first (document order)",
+         ["stack.extend(((n, pid, typee) for n in reversed(root.children)))"], "order"),
+        ("x, y, z, r of the point ...", ["x, y, z, r = root.value"], "unpack"),
+        ("... go to the column x", ["ndata[names.x].append(x)"], "x"),
+        ("... y", ["ndata[names.y].append(y)"], "y"),
+        ("... z", ["ndata[names.z].append(z)"], "z"),
+        ("... r", ["ndata[names.r].append(r)"], "r"),
+    ], fixed=("names",))
+    # a table keyed by the point's value (coordinates) cannot identify a point: equal points collide
+    for n in own_nodes(conv):
+        tg = n.targets if isinstance(n, ast.Assign) else []
+        for t in tg:
+            if isinstance(t, ast.Subscript) and norm_src(t.slice).endswith(".value"):
+                col.bad("R-COUNTER", conv.qualname, conv.loc(n), "the recorded parent is the id handed down in the frame",
+                        f"`{norm_src(n)}` files ids under the point's value (x, y, z, r): two points with equal coordinates share one key, "
+                        f"so a later alternative is attached to the wrong one of them", stmt="pidcol", definite=True)
+    pn = repo.get_def(f"{PARSER}._parse_node")
+    col.text_group("R-POINT", pn.qualname, pn, [
+        ("first number", ["t1 = self._assert_and_cunsume(TokenType.FLOAT)"], "f1"),
+        ("second number", ["t2 = self._assert(self.next_token, TokenType.FLOAT)", "t2 = self._assert_and_cunsume(TokenType.FLOAT)"], "f2"),
+        ("third number", ["t3 = self._assert(self.next_token, TokenType.FLOAT)", "t3 = self._assert_and_cunsume(TokenType.FLOAT)"], "f3"),
+        ("fourth number", ["t4 = self._assert(self.next_token, TokenType.FLOAT)", "t4 = self._assert_and_cunsume(TokenType.FLOAT)"], "f4"),
+        ("closing bracket", ["t5 = self._assert_and_cunsume(TokenType.BRACKET_RIGHT)"], "close"),
+        ("the four numbers are stored in reading order as x, y, z, r", ["x, y, z, r = t1.value, t2.value, t3.value, t4.value"], "xyzr"),
+        ("the point record is built as (x, y, z, r)", ["node = ASTNode(ASTType.NODE, ASCNode(x, y, z, r), tokens=_any)"], "record"),
+        ("a point becomes a child of the point it follows", ["root.add_child(node)"], "attach"),
+        ("... and is the new chain end", ["return node"], "ret"),
+    ], fixed=("TokenType", "ASTNode", "ASTType", "ASCNode"))
+    sub = repo.get_def(f"{PARSER}._parse_subtree")
+    col.text_group("R-POINT", sub.qualname, sub, [
+        ("consecutive points chain: each point hangs on the previous one", ["current = self._parse_node(current)"], "chain"),
+        ("a split remembers the point it hangs on", ["splits.append(current)"], "split-open"),
+        ("each alternative restarts from the point before the split", ["current = splits[-1]"], "alt"),
+        ("after the split the chain resumes from that point", ["current = splits.pop()"], "split-close"),
+    ])
+    pp = repo.get_def(f"{PARSER}._parse")
+    col.text_group("R-LABEL", pp.qualname, pp, [
+        ("labels are compared case-folded", ["match str.upper(token.value):\n    case 'AXON' | 'DENDRITE':\n        self._parse_tree(root)\n    case 'COLOR':\n        self._parse_color(root)\n    case _:\n        raise LiteralTokenError(token, _any)"], "labels"),
+        ("the document's closing bracket is required", ["token = self._assert_and_cunsume(TokenType.BRACKET_RIGHT)"], "doc-close"),
+    ], fixed=("TokenType", "LiteralTokenError"))
